@@ -12,14 +12,15 @@ grep -q "cel_parser" $out/demo$n.rs && ! grep -q "cel_interpreter" $out/demo$n.r
 grep -qi "antlr/tests" $out/README.md && grep -qi "demo$n.rs.*antlr/tests\|antlr/tests.*demo$n" $out/README.md && demo_dir=antlr/tests
 mkdir -p $demo_dir; cp $out/demo$n.rs $demo_dir/demo.rs
 crate=cel-interpreter; [ $demo_dir = antlr/tests ] && crate=cel-parser
+feat=""; grep -q "\.json()" $out/demo$n.rs && feat="--features json"
 # 1. demo passes on the clean tree
-cargo test --offline -q -p $crate --test demo > $out/confirm_clean_$n.log 2>&1; clean_rc=$?
+cargo test --offline -q -p $crate $feat --test demo > $out/confirm_clean_$n.log 2>&1; clean_rc=$?
 # 2. apply patch
 if git apply --check $out/patch$n.diff 2>/dev/null; then git apply $out/patch$n.diff; applied=plain
 elif git apply --3way $out/patch$n.diff 2>/dev/null; then applied=3way
 else echo "$prop $n: PATCH DOES NOT APPLY on $head"; rm -rf $demo_dir/demo.rs; git reset -q --hard; exit 3; fi
 git diff -- antlr/src interpreter/src > $out/patch${n}_rebased.diff
-cargo test --offline -q -p $crate --test demo > $out/confirm_mut_$n.log 2>&1; mut_rc=$?
+cargo test --offline -q -p $crate $feat --test demo > $out/confirm_mut_$n.log 2>&1; mut_rc=$?
 # 3. existing suite with the patch (demo removed)
 rm -f $demo_dir/demo.rs; rmdir $demo_dir 2>/dev/null
 cargo test --workspace --offline > $out/confirm_suite_$n.log 2>&1; suite_rc=$?
